@@ -477,6 +477,43 @@ fn sim_variants<G: Grp>(rng: &mut R, honest: &Trace, p: &str, h: G, gs: &[G], c:
         fill_cp(&mut tr, p, &gb(&com), &gb(&t), &resp)?;
         out.push(Variant { class: "simulated:honest-C", bytes: tr.bytes, schnorr_true_under_c: true });
     }
+    // (a') the same with responses of machine-word size and other shaped values (bit 63 set and nothing
+    //      above, 2^64-1, 2^32, 2^128, q-small): any value is a legitimate response
+    {
+        let shaped = |rng: &mut R, k: usize| -> Scalar {
+            let lo = rng.next_u64();
+            match k % 7 {
+                0 => Scalar::from(lo | (1 << 63)),
+                1 => Scalar::from(u64::MAX),
+                2 => Scalar::from(1u64 << 63),
+                3 => Scalar::from(lo >> 32),
+                4 => Scalar::from_raw([lo, 1, 0, 0]),
+                5 => Scalar::zero() - Scalar::from(lo | (1 << 63)),
+                _ => Scalar::from_raw([lo | (1 << 63), 0, lo, 0]),
+            }
+        };
+        for (class, off) in [("simulated:honest-C,64-bit-responses", 0usize), ("simulated:honest-C,shaped-responses", 2)] {
+            let resp = Resp {
+                bf: shaped(rng, off),
+                msg: (0..n).map(|i| if off == 0 { shaped(rng, i % 3) } else { shaped(rng, off + i) }).collect(),
+            };
+            let t = sch.t_for(c, &resp);
+            let mut tr = honest.clone();
+            fill_cp(&mut tr, p, &gb(&com), &gb(&t), &resp)?;
+            out.push(Variant { class, bytes: tr.bytes, schnorr_true_under_c: true });
+        }
+    }
+    // (a'') the statement about the identity element (the all-zero message under a zero blinding factor):
+    //       T := Com(resp)
+    {
+        sch.com = G::identity();
+        let resp = rand_resp(rng);
+        let t = sch.t_for(c, &resp);
+        let mut tr = honest.clone();
+        fill_cp(&mut tr, p, &gb(&sch.com), &gb(&t), &resp)?;
+        out.push(Variant { class: "simulated:identity-C", bytes: tr.bytes, schnorr_true_under_c: true });
+        sch.com = com;
+    }
     // (b) a random commitment (nobody knows an opening), simulated the same way
     {
         sch.com = G::random(&mut *rng);
@@ -838,7 +875,9 @@ fn proof_case<const N: usize>(c: &mut Ctx, ty: Ty, inst: usize) {
                     }
                     let class = format!("{}@{}", v.class, cname);
                     c.distinct(&key(&class));
-                    compare(c, &Obs { ty, n: N, class: &class, label: &class, must_reject: cname != "c" }, lib, verdict, || {
+                    // the statement about the identity holds under every challenge (c*0 = 0): nothing to refuse there
+                    let challenge_free = v.class == "simulated:identity-C";
+                    compare(c, &Obs { ty, n: N, class: &class, label: &class, must_reject: cname != "c" && !challenge_free }, lib, verdict, || {
                         let mut d = base_detail.clone();
                         d["assembled_proof"] = json!(hex(&tr.bytes));
                         d["verified_under"] = json!(hex(&chx.to_scalar().to_bytes()));
